@@ -117,6 +117,49 @@ func (h *Hist) batchWrite(k, v, x int) bool {
 	return b.Commit() == nil
 }
 
+// BatchSeq performs several puts / deletes of ONE key inside ONE batch at version v (e.g. delete then
+// put): recorded as the same sequence of ordinary operations of the model (the last one wins).
+func (h *Hist) BatchSeq(k, v int, puts []bool) {
+	uuid := dvid.UUID(h.UUIDs[v-1])
+	d, err := datastore.GetDataByUUIDName(uuid, dvid.InstanceName(h.Inst))
+	ok := err == nil
+	var b storage.Batch
+	var kd *keyvalue.Data
+	if ok {
+		ver, _ := datastore.VersionFromUUID(uuid)
+		db, err := datastore.GetOrderedKeyValueDB(d)
+		batcher, isB := db.(storage.KeyValueBatcher)
+		kd, _ = d.(*keyvalue.Data)
+		ok = err == nil && isB && kd != nil
+		if ok {
+			b = batcher.NewBatch(datastore.NewVersionedCtx(d, ver))
+		}
+	}
+	tk, _ := keyvalue.NewTKey(fmt.Sprintf("k%d", k))
+	var hops []Hop
+	for _, isPut := range puts {
+		if isPut {
+			h.NextX++
+			hops = append(hops, Hop{Op: "put", K: k, V: v, X: h.NextX, How: "batchseq"})
+			if ok {
+				val, _ := dvid.SerializeData([]byte(strconv.Itoa(h.NextX)), kd.Compression(), kd.Checksum())
+				b.Put(tk, val)
+			}
+		} else {
+			hops = append(hops, Hop{Op: "del", K: k, V: v, How: "batchseq"})
+			if ok {
+				b.Delete(tk)
+			}
+		}
+	}
+	if ok {
+		ok = b.Commit() == nil
+	}
+	for _, hp := range hops {
+		h.record(hp, acc(ok))
+	}
+}
+
 // BatchPut / BatchDel: recorded as ordinary put / delete operations of the model.
 func (h *Hist) BatchPut(k, v int) {
 	h.NextX++
@@ -206,7 +249,25 @@ func NewWith(rng *lib.Rand, inst string, extra map[string]string) (*Hist, error)
 
 // Replay re-issues recorded requests.
 func (h *Hist) Replay(ops []Hop) {
-	for _, o := range ops {
+	for i := 0; i < len(ops); i++ {
+		o := ops[i]
+		if o.How == "batchseq" {
+			var seq []bool
+			j := i
+			for j < len(ops) && ops[j].How == "batchseq" && ops[j].K == o.K && ops[j].V == o.V {
+				seq = append(seq, ops[j].Op == "put")
+				j++
+			}
+			for _, q := range ops[i:j] {
+				if q.Op == "put" {
+					h.NextX = q.X - 1
+					break
+				}
+			}
+			h.BatchSeq(o.K, o.V, seq)
+			i = j - 1
+			continue
+		}
 		switch o.Op {
 		case "put":
 			h.NextX = o.X - 1
@@ -238,7 +299,15 @@ func (h *Hist) Random(nops, nkeys, maxNodes int) {
 		open, lk := h.OpenList(), h.LockedList()
 		switch x := rng.Intn(100); {
 		case x < 30 && len(open) > 0:
-			if !h.NoBatch && rng.Chance(0.3) {
+			if !h.NoBatch && rng.Chance(0.15) {
+				// several operations on one key in one batch: delete-then-put, put-then-delete, ...
+				n := 2 + rng.Intn(2)
+				seq := make([]bool, n)
+				for j := range seq {
+					seq[j] = rng.Bool()
+				}
+				h.BatchSeq(rng.Intn(nkeys), open[rng.Intn(len(open))], seq)
+			} else if !h.NoBatch && rng.Chance(0.3) {
 				h.BatchPut(rng.Intn(nkeys), open[rng.Intn(len(open))])
 			} else {
 				h.Put(rng.Intn(nkeys), open[rng.Intn(len(open))])
